@@ -160,3 +160,82 @@ def special_key(ex, st, k):
     from pyvc.core import CONSTS
     kb = box(k, st)
     return S_bool(z3.Or(*[kb == CONSTS.get("str", s) for s in SPECIAL_KEYS]))
+
+
+# ---------------------------------------------------------------------------
+# command-line assembly: "the command-line value if given"
+
+REG.fieldspec(should_create_command_line_option="bool")
+
+
+def _cmdline_instance(c):
+    c.param("value", "val")
+    c.param("from_command_line", "bool")
+    c.param("callee_", "val")
+    c.returns("obj:ConfigOption")
+    c.ensures("same(result.value, value) and result.from_command_line == ite(from_command_line is None, False, from_command_line) and len(result.applicable_to) == 0")
+    c.ensures("option_class_of(result, callee_)")
+    c.assume("option_cls(value, from_command_line=True): dataclass-generated ConfigOption.__init__")
+
+
+@contract("pyanalyze.name_check_visitor.NameCheckVisitor.prepare_constructor_kwargs", props=["C18"])
+def _(c):
+    c.param("kwargs", "dict[str,val]")
+    c.param("extra_options", "seq[obj:ConfigOption]")
+    c.returns("val")
+    c.callee("option_cls", _cmdline_instance)
+    c.record_calls += ["Options.from_option_list"]
+    c.unmodelled += []
+    c.transparent_with += []
+    c.callee("Paths", _cmdline_instance)
+    c.callee("Checker", lambda k: (k.param("raw_options", "val"), k.returns("val")))
+    c.callee("patch_typing_overload", lambda k: k.returns("val"))
+    c.callee("Path", lambda k: (k.param("p", "val"), k.returns("val")))
+    c.callee("sys.exit", lambda k: (k.param("code", "val"), k.returns("val"), k.raises("SystemExit")))
+    c.raises("SystemExit")
+    c.requires("'settings' not in kwargs", name="no_settings_dict")
+    c.assume("scope: per-option command-line values (the `settings` dict of error codes, handled by the first loop, is not specified)")
+    c.loop(0, invariant="True")
+    given = "(name_ in kwargs and ConfigOption.registry[name_].should_create_command_line_option and name_ in ConfigOption.registry)"
+    frame = ("all(implies(j >= _k1, (registry_key(j) in kwargs) == (registry_key(j) in kwargs_at_entry and registry_key(j) != 'files')"
+             " and implies(registry_key(j) in kwargs, same(kwargs[registry_key(j)], kwargs_at_entry[registry_key(j)]))) for j in range(len(ConfigOption.registry)))")
+    inv = ("all(implies(registry_key(j) in kwargs_at_entry and registry_key(j) != 'files' and registry_value(j).should_create_command_line_option,"
+           " exists(lambda t: 0 <= t and t < len(instances) and instances[t].from_command_line and same(instances[t].value, kwargs_at_entry[registry_key(j)])"
+           " and len(instances[t].applicable_to) == 0 and option_class_of(instances[t], registry_value(j)))) for j in range(_k1))")
+    c.let("kwargs_at_entry", "kwargs")
+    c.loop(1, invariant=[("unprocessed_keys_untouched", frame), ("given_values_become_command_line_instances", inv)])
+    c.ensures("len(appended('Options.from_option_list')) == 1", name="options_built_once")
+    c.ensures("all(implies(registry_key(j) in kwargs and registry_key(j) != 'files' and registry_value(j).should_create_command_line_option,"
+              " exists(lambda t: 0 <= t and t < len(passed_instances()) and passed_instances()[t].from_command_line and same(passed_instances()[t].value, kwargs[registry_key(j)])"
+              " and len(passed_instances()[t].applicable_to) == 0 and option_class_of(passed_instances()[t], registry_value(j))))"
+              " for j in range(len(ConfigOption.registry)))", name="every_given_command_line_value_reaches_the_option_list")
+
+
+@spec_function()
+def registry_key(ex, st, j):
+    from pyvc.core import CONSTS, Spec as _S
+    reg = unbox(_S("dict", (_S("str"), _S("val"))), fld("registry")(CONSTS.get("class", "ConfigOption")), st)
+    return unbox(_S("str"), Q.At(reg.py.keys, as_int(j, st)), st)
+
+
+@spec_function()
+def registry_value(ex, st, j):
+    from pyvc.core import CONSTS, Spec as _S, S_val
+    reg = unbox(_S("dict", (_S("str"), _S("val"))), fld("registry")(CONSTS.get("class", "ConfigOption")), st)
+    return S_val(z3.Select(reg.py.vals, Q.At(reg.py.keys, as_int(j, st))))
+
+
+@spec_function()
+def option_class_of(ex, st, inst, cls):
+    """the instance was created by calling this option class"""
+    return S_bool(uf("created_by", V, V)(box(inst, st)) == box(cls, st))
+
+
+@spec_function()
+def passed_instances(ex, st):
+    """first positional argument of the recorded call Options.from_option_list(instances, ...)"""
+    g = st.notes.get("ghost_appends") or {}
+    ev = g.get("Options.from_option_list")
+    from pyvc.core import unS as _unS, Spec as _S
+    call0 = _unS(Q.At(ev.t, 0))
+    return Sym("seq", _unS(Q.At(call0, 0)), _S("seq", _S("obj", "ConfigOption")))
